@@ -491,6 +491,12 @@ func buildYAML(hooks []*hookDef, nTasks int) string {
 				yamlQuote(writtenExpr(h.await, h.aw, h.awText)), h.crit)
 			continue
 		}
+		if h.await == h.trig && h.aw == h.tw && h.id%2 == 0 {
+			// await left out: the reader's default is the trigger expression itself (callrole.go / taskrole.go
+			// UnmarshalYAML), so the same hook must behave exactly as with the await spelled out (seed C08-7)
+			fmt.Fprintf(&b, "      trigger: %s%+d\n      critical: %v\n", h.trig, h.tw, h.crit)
+			continue
+		}
 		fmt.Fprintf(&b, "      trigger: %s%+d\n      await: %s%+d\n      critical: %v\n", h.trig, h.tw, h.await, h.aw, h.crit)
 	}
 	if nTasks == 0 && len(hooks) == 0 {
